@@ -199,12 +199,18 @@ def solve_lp(
         for i, var_name in enumerate(lp_data.variables):
             values[var_name] = float(result.x[i])
 
-    # Compute actual objective value (undo negation for maximization)
+    # Compute actual objective value. linprog only sees the coefficient vector,
+    # so result.fun lacks the objective's constant term: report the user's
+    # objective evaluated at the returned point whenever there is one.
     objective_value: float | None = None
     if result.fun is not None:
-        objective_value = float(result.fun)
-        if lp_data.sense == "max":
-            objective_value = -objective_value
+        if values:
+            objective_value = float(problem.objective.evaluate(values))
+        else:
+            # No point returned: undo the negation for maximization
+            objective_value = float(result.fun)
+            if lp_data.sense == "max":
+                objective_value = -objective_value
 
     # Build informative message for unbounded/infeasible cases
     message = result.message if hasattr(result, "message") else ""
